@@ -15,7 +15,7 @@ pub const REQUIRED: &[&str] = &[
     "arm.dispatch[generic]", "arm.dispatch[sse2]", "arm.dispatch[avx2]", "arm.dispatch[auto]", "class.none_expected",
     "class.some_expected", "class.k>0", "class.k=all", "class.near_ties", "class.blocks>1", "class.L<M",
     "class.first_candidate_below_threshold", "class.threshold_below_jth_best", "dispatch_forced.generic", "dispatch_forced.sse2", "dispatch_forced.avx2",
-    "class.history", "class.history.threshold_lowered", "class.history.threshold_raised",
+    "class.rows>65536", "class.history", "class.history.threshold_lowered", "class.history.threshold_raised",
     "class.history.block_size_changed_after_blocks_scored", "class.history.hits_yielded",
 ];
 
@@ -24,15 +24,25 @@ fn max_case(case: u64, rng: &mut Rng, rep: &mut Report) {
 }
 
 fn max_case_inner(case: u64, rng: &mut Rng, rep: &mut Report) {
-    let near = rng.chance(0.45);
-    let m = if near { rng.range(8, 33) } else { *rng.pick(&SCAN_WIDTHS) };
-    let b_hint = *rng.pick(&[1usize, 2, 3, 5, 8, 16, 31, 32, 33, 64]);
-    let l = if near { rng.range(m.max(200), 5000) } else { pick_lengths(rng, m, b_hint) };
+    // case 0 of every run: a sequence with more than 65536 striped rows scanned in blocks larger
+    // than that (the 8-bit arg-maximum kernels count rows in 16 bits; "any block size >= 1")
+    let giant = case == 0;
+    let near = !giant && rng.chance(0.45);
+    let m = if giant { rng.range(4, 8) } else if near { rng.range(8, 33) } else { *rng.pick(&SCAN_WIDTHS) };
+    let b_hint = if giant { usize::MAX } else { *rng.pick(&[1usize, 2, 3, 5, 8, 16, 31, 32, 33, 64]) };
+    let l = if giant {
+        rep.cover("class.rows>65536");
+        65536 * 32 + 32 * rng.range(1, 3) + rng.below(32)
+    } else if near {
+        rng.range(m.max(200), 5000)
+    } else {
+        pick_lengths(rng, m, b_hint)
+    };
     let inp = make_scan_input(rng, l, m, near);
     let nvalid = inp.exact.len();
     for run_i in 0..4 {
         let arm = DISP_ARMS[((case as usize) + run_i) % 4];
-        let b = if run_i == 0 { b_hint } else { pick_block(rng, inp.r_rows, m) };
+        let b = if giant { [usize::MAX, 65537, 65536, 1_000_000][run_i] } else if run_i == 0 { b_hint } else { pick_block(rng, inp.r_rows, m) };
         let t = if near && rng.chance(0.45) && nvalid > 8 {
             // threshold just below the j-th best score: a handful of near-equal candidates, whose
             // rounded-up byte scores need not be in the order of their real scores
@@ -50,7 +60,7 @@ fn max_case_inner(case: u64, rng: &mut Rng, rep: &mut Report) {
         } else {
             pick_threshold(rng, &inp, rep)
         };
-        let k_choice = *rng.pick(&[0usize, 0, 1, 2, 5, usize::MAX]);
+        let k_choice = if giant { *rng.pick(&[0usize, 1]) } else { *rng.pick(&[0usize, 0, 1, 2, 5, usize::MAX]) };
         rep.eval();
         rep.cover(&format!("arm.{}", arm.name()));
         if inp.l < inp.m {
